@@ -28,7 +28,22 @@ def reduce1 {β} (f : β → β → β) : List β → Option β
 
 def sumAndN (c : List Int) : Int × Nat := (c.sum, c.length)
 def pairAdd (a b : Int × Nat) : Int × Nat := (a.1 + b.1, a.2 + b.2)
-def meanStream (cs : List (List Int)) : Int × Nat := (cs.map sumAndN).foldl pairAdd (0, 0)
+
+/-- what a streamed reduction can raise: `sum(...)` / `reduce(...)` of no chunks (`TypeError`), `next(...)` of no
+chunks (`StopIteration`), `np.histogram` on edges that decrease (`ValueError`), a quantile of no data (`IndexError`) -/
+inductive SErr where
+  | emptyStream
+  | stop
+  | badEdges
+  | noData
+  deriving DecidableEq, Repr
+
+/-- `mean(stream)`: `t = sum(sum_and_n(chunk) …)`, then `t[:-1] / t[-1]`. On a stream without chunks Python's `sum`
+returns its start value, the integer `0`, and `t[:-1]` raises `TypeError`; on chunks that are all empty the
+pair is `(0, 0)` and the division gives `nan`, as for the empty array in memory -/
+def meanStream : List (List Int) → Except SErr (Int × Nat)
+  | [] => .error .emptyStream
+  | c :: cs => .ok (((c :: cs).map sumAndN).foldl pairAdd (0, 0))
 
 /-! #### mean over axis 0 of 2-d chunks (`sum_and_n(chunk, axis=0)` = column sums and the number of rows), row-wise
 functions without reduction (`streamable()`: `_rowmean`, one result per chunk), quantiles from the bincount -/
@@ -65,6 +80,10 @@ the number of cumulative counts below `q * total` -/
 def quantileOf (hist : List Nat) (p d : Nat) : Nat :=
   ((cumsumFrom 0 hist).filter (fun c => decide (c * d < p * hist.sum))).length
 
+/-- `quantile` from a bincount: `cumulative[-1]` raises `IndexError` when the bincount is empty (no data at all) -/
+def quantileHist (hist : List Nat) (p d : Nat) : Except SErr Nat :=
+  if hist = [] then .error .noData else .ok (quantileOf hist p d)
+
 /-! #### bincount: `np.bincount(chunk, minlength=ml)` per chunk, `reduce(bincount_reduce, …)` -/
 
 /-- one more than the largest value (0 for the empty array) -/
@@ -86,8 +105,13 @@ def bincountStream (ml : Nat) (cs : List (List Nat)) : Option (List Nat) :=
   reduce1 bincountReduce (cs.map (bincount ml))
 
 /-- `quantile(stream, q)`: `hist = bincount(stream)` (the streamed reduction), then the index -/
-def quantileStream (cs : List (List Nat)) (p d : Nat) : Option Nat :=
-  (bincountStream 0 cs).map (fun h => quantileOf h p d)
+def quantileStream (cs : List (List Nat)) (p d : Nat) : Except SErr Nat :=
+  match bincountStream 0 cs with
+  | none => .error .emptyStream      -- `reduce()` of an empty iterable: `TypeError`
+  | some h => quantileHist h p d
+
+/-- `quantile(array, q)` in memory -/
+def quantileMem (c : List Nat) (p d : Nat) : Except SErr Nat := quantileHist (bincount 0 c) p d
 
 /-! #### histogram with explicitly given bin edges -/
 
@@ -117,8 +141,23 @@ def histogramReduce : List (List Nat × List Int) → Option (List Nat × List I
     | .zero => some (h, e)
     | .arr s => some (List.zipWith (· + ·) s h, e)
 
-def histogramStream (edges : List Int) (cs : List (List Int)) : Option (List Nat × List Int) :=
-  histogramReduce (cs.map (fun c => (histogram edges c, edges)))
+/-- `np.histogram` accepts the edges iff they never decrease (equal neighbours are fine; fewer than two edges
+give no bins); otherwise `ValueError: bins must increase monotonically` -/
+def edgesMono (edges : List Int) : Bool := (edges.zip edges.tail).all (fun p => decide (p.1 ≤ p.2))
+
+/-- `np.histogram(c, bins=edges)` in memory: raises on decreasing edges -/
+def histogramMem (edges : List Int) (c : List Int) : Except SErr (List Nat × List Int) :=
+  if edgesMono edges then .ok (histogram edges c, edges) else .error .badEdges
+
+/-- `histogram(stream, bins=edges)`: the per-chunk results are a lazy generator, so a stream without chunks raises
+`StopIteration` at `next(...)` before any edge is looked at; otherwise the first chunk's `np.histogram` checks the edges -/
+def histogramStream (edges : List Int) (cs : List (List Int)) : Except SErr (List Nat × List Int) :=
+  if cs = [] then .error .stop
+  else if edgesMono edges then
+    match histogramReduce (cs.map (fun c => (histogram edges c, edges))) with
+    | some r => .ok r
+    | none => .error .stop
+  else .error .badEdges
 
 /-- `np.linspace(lo, hi, bins+1)` when `bins` divides `hi - lo` (integer edges) -/
 def uniformEdges (bins : Nat) (lo : Int) (width : Nat) : List Int :=
